@@ -26,6 +26,8 @@ def concretise(progs, pid, tier, seed, mult, rbufs=RBUFS, chunks=CHUNKS, tail=3,
             big = max([o.get("k", 0) for o in p.get("reads", [])] + [0])
             q["seed"] = rnd.randrange(1, 1 << 30)
             q["tail"] = tail if rnd.random() > long_tail else 1003
+            if any(o.get("op") == "RJ" for o in p.get("reads", [])):
+                q["json"] = True
             c = p.get("cut")
             if not c or c.get("frame", 0) == 0:
                 q["cut"] = None
